@@ -709,6 +709,7 @@ func (c *Client) receipts(ctx context.Context, url string, bm blockmap, start, l
 		if !ok {
 			return fmt.Errorf("block not found")
 		}
+		b.Lock()
 		b.Header.Hash.Write(resps[i].Result[0].BlockHash)
 		for j := range resps[i].Result {
 			tx := b.Tx(uint64(resps[i].Result[j].TxIdx))
@@ -723,6 +724,7 @@ func (c *Client) receipts(ctx context.Context, url string, bm blockmap, start, l
 			tx.ContractAddress.Write(resps[i].Result[j].ContractAddress)
 			copy(tx.Logs, resps[i].Result[j].Logs)
 		}
+		b.Unlock()
 	}
 	return nil
 }
@@ -868,6 +870,7 @@ func (c *Client) traces(ctx context.Context, url string, bm blockmap, start, lim
 		if !ok {
 			return fmt.Errorf("missing block in block map")
 		}
+		block.Lock()
 		block.Header.Hash.Write(res.Result[0].BlockHash)
 
 		var tracesByTx = map[key][]traceBlockResult{}
@@ -889,6 +892,7 @@ func (c *Client) traces(ctx context.Context, url string, bm blockmap, start, lim
 				tx.TraceActions[i] = ta
 			}
 		}
+		block.Unlock()
 	}
 	slog.DebugContext(ctx, "http-get-traces", "elapsed", time.Since(t0))
 	return nil
